@@ -17,6 +17,7 @@ By induction over the levels the tile returned at depth d <= D contains the poin
 delta_{l+1} = 2 (delta_l + gamma) with gamma = 1e-12 (< 1e-9 for d <= 8).
 """
 import math
+import time
 
 import numpy as _np
 import z3
@@ -325,6 +326,93 @@ def cases(tier):
     return out
 
 
+def _all_tiles(depth, planetary):
+    out = []
+
+    def rec(t, lvl):
+        out.append(t)
+        if lvl < depth:
+            for c in tt._div4(t):
+                rec(c, lvl + 1)
+    for t1 in tt._create_level1_tiles(_cs(planetary)):
+        rec(t1, 1)
+    return out
+
+
+def pixel_error(depth, lat, lon, planetary):
+    """Real toast_pixel_for_point vs. the pixel of the returned tile whose centre is nearest to the point (great-circle
+    distance, independent of longitude branches).  -> (max |dx|, |dy| in pixels, details)"""
+    tile, x, y = tt.toast_pixel_for_point(depth, lat, lon, coordsys=_cs(planetary))
+    lons, lats = tt.toast_tile_get_coords(tile)
+    cosd = _np.sin(lats) * math.sin(lat) + _np.cos(lats) * math.cos(lat) * _np.cos(lons - lon)
+    ny, nx = _np.unravel_index(_np.argmax(cosd), cosd.shape)
+    return max(abs(float(x) - nx), abs(float(y) - ny)), dict(tile=tuple(tile.pos), returned=(float(x), float(y)), nearest=(int(nx), int(ny)))
+
+
+SIG_PIXEL = "toast.py:toast_pixel_for_point:longitude-branch"
+
+
+def pixel_branch(run, depth):
+    """For every real tile of levels 1..depth (pixel longitudes from the real toast_tile_get_coords) the solver looks
+    for a documented query longitude lon in [0, 2*pi] that lies in the tile's longitude range modulo 2*pi while a pixel
+    longitude of the tile is more than pi away from it as a NUMBER: toast_pixel_for_point compares those numbers
+    (planar distance), so such a query cannot select the nearest pixel.  Each hit is replayed on the real function."""
+    t0 = time.time()
+    nq = 0
+    hits = []
+    for planetary in (False, True):
+        for t in _all_tiles(depth, planetary):
+            c = _np.asarray(t.corners, dtype=float)
+            if c[:, 1].max() > PI / 2 - math.radians(1.5) or c[:, 1].min() < -PI / 2 + math.radians(1.5):
+                continue        # the property exempts the neighbourhood of the poles
+            lons, lats = tt.toast_tile_get_coords(t)
+            lc = float(lons[128, 128])
+            un = lons - TWOPI * _np.round((lons - lc) / TWOPI)
+            lo, hi = float(un.min()), float(un.max())
+            lon, k = z3.Real("lon"), z3.Int("k")
+            s = z3.Solver()
+            s.set("timeout", 30000)
+            s.add(lon >= 0, lon <= symx.q(TWOPI), k >= -3, k <= 3, lon + symx.q(TWOPI) * z3.ToReal(k) >= symx.q(lo), lon + symx.q(TWOPI) * z3.ToReal(k) <= symx.q(hi))
+            s.add(z3.Or(symx.q(float(lons.max())) - lon > symx.q(PI), lon - symx.q(float(lons.min())) > symx.q(PI)))
+            # prefer the middle of the admissible range
+            r = s.check()
+            nq += 1
+            if str(r) == "sat":
+                m = s.model()
+                v = m.eval(lon, model_completion=True)
+                lonv = float(v.numerator_as_long()) / float(v.denominator_as_long())
+                latv = float(lats[128, 128])
+                # move the query longitude to the tile centre's representative in [0, 2 pi] when that is also a hit
+                cen = lc % TWOPI
+                if max(float(lons.max()) - cen, cen - float(lons.min())) > PI:
+                    lonv = cen
+                hits.append((planetary, tuple(int(v) for v in t.pos), latv, lonv))
+            elif str(r) != "unsat":
+                run.ob("pixel-branch[%s]" % (tuple(t.pos),), "inconclusive", "z3", "solver %s" % r)
+    reported = False
+    confirmed = 0
+    for planetary, pos, latv, lonv in hits:
+        err, info = pixel_error(pos[0], latv, lonv, planetary)
+        run.replays += 1
+        if err > 2.0:
+            confirmed += 1
+            if not reported:
+                reported = True
+                text = ("# real toast_pixel_for_point vs the nearest pixel centre of the returned tile\nimport sys\nsys.path.insert(0, %r)\nimport props.C12 as P\n"
+                        "err, info = P.pixel_error(%d, %r, %r, %r)\nprint(err, info)\nsys.exit(1 if err > 2.0 else 0)\n") % (str(__import__("vlib.core").core.VERIF), pos[0], latv, lonv, planetary)
+                run.violation("pixel-branch", SIG_PIXEL, "toast_pixel_for_point(%d, lat=%r, lon=%r, %s) returns pixel %r of tile %r; the pixel whose centre is nearest to the point is %r (off by %.0f pixels): the tile's pixel "
+                              "longitudes are on another 2*pi branch than the query longitude and are compared as numbers" % (pos[0], latv, lonv, "planetary" if planetary else "astronomical", info["returned"], info["tile"], info["nearest"], err),
+                              text, "z3+replay", queries=nq, solver_s=time.time() - t0)
+    if not hits:
+        run.ob("pixel-branch", "unsat", "z3", "%d tile queries (levels 1..%d, both systems, tiles within 1.5 degrees of a pole exempt): no documented query longitude in a tile's range is more than pi away from that tile's pixel longitudes" % (nq, depth),
+               queries=nq, solver_s=time.time() - t0)
+    elif not confirmed:
+        run.ob("pixel-branch", "confirmed", "z3+replay", "%d tiles whose pixel longitudes are more than pi from a query longitude in their range; the real function still returns the nearest pixel (within 2) for all of them" % len(hits),
+               queries=nq, solver_s=time.time() - t0)
+    elif reported:
+        run.ob("pixel-branch.count", "violated", "z3+replay", "%d of %d branch-mismatch tiles reproduce a pixel error > 2" % (confirmed, len(hits)))
+
+
 def check(run):
     run.uses(tt.toast_tile_for_point, tt._toast_tile_containment_score, tt._left_of_half_space_score, tt._div4, tt._create_level1_tiles, tt.generate_tiles)
     D = DEPTH[run.tier]
@@ -334,7 +422,11 @@ def check(run):
     run.assume("the point's Cartesian direction is tied to its longitude only by the sign facts of sin / cos (sound abstraction of _equ_to_xyz; latitude free)",
                "tile corners / edge normals are the concrete doubles computed by the real geometry code; edge tests evaluated exactly (rationals) on them",
                "builtin min inside toasty.toast replaced by a branch-free symbolic equivalent; _create_level1_tiles replaced by [T] to start one loop iteration at T")
-    run.outside("depths beyond %d" % D, "the <= 2 pixel accuracy of toast_pixel_for_point's least-squares fit (np.linalg.lstsq; not encodable)",
+    run.outside("depths beyond %d" % D, "the <= 2 pixel accuracy of toast_pixel_for_point's least-squares fit itself (np.linalg.lstsq; not encodable) — only the consistency of the longitude branch it compares on is decided (pixel-branch)",
                 "float rounding inside _equ_to_xyz and the dot products of the real test")
     run.composition.append("level-1 + step(T) for all T of levels 1..D-1 => by induction the depth-d tile holds the point within d*gamma; nesting because depth d+1 extends the same deterministic prefix (step: picks-a-child)")
+    only = getattr(run, "only", None)
+    if not only or any("pixel" in o for o in only):
+        run.uses(tt.toast_pixel_for_point, tt.toast_tile_get_coords)
+        pixel_branch(run, 3 if run.tier == "quick" else 5)
     e2.run_cases_parallel(run, __name__)
